@@ -1727,6 +1727,9 @@ class SecurityBase(Node):
         if price is not None and np.isnan(price):
             raise ValueError("Cannot transact %s at a custom price of NaN on %s." % (self.name, self.parent.now))
 
+        if price is None and self._bidoffer_set and np.isnan(self._bidoffer):
+            raise ValueError("Cannot transact %s on %s: its bid/offer spread is NaN." % (self.name, self.parent.now))
+
         # this security will need an update, even if pos is 0 (for example if
         # we close the positions, value and pos is 0, but still need to do that
         # last update)
